@@ -649,6 +649,27 @@ Lemma u_buf_fmt_eq s w : u_buf_fmt s w = buf_fmt s w.
 Proof. unfold u_buf_fmt, buf_fmt. msteps. Qed.
 #[export] Hint Resolve u_buf_hash_eq u_buf_fmt_eq : ueq.
 
+(* Default, IntoIterator for &CircularBuffer, Debug for the iterators *)
+Lemma u_default_buf_eq n junk : u_default_buf n junk = default_buf n junk.
+Proof. reflexivity. Qed.
+
+Lemma u_ref_into_iter_eq s w : u_ref_into_iter s w = ref_into_iter s w.
+Proof. unfold u_ref_into_iter, ref_into_iter. msteps. Qed.
+
+Lemma u_iter_fmt_eq it s w : u_iter_fmt it s w = iter_fmt it s w.
+Proof. unfold u_iter_fmt, iter_fmt. msteps. Qed.
+#[export] Hint Resolve u_ref_into_iter_eq u_iter_fmt_eq : ueq.
+
+Lemma u_iter_mut_fmt_eq it s w : u_iter_mut_fmt it s w = iter_mut_fmt it s w.
+Proof. unfold u_iter_mut_fmt, iter_mut_fmt. msteps. Qed.
+
+Lemma u_drain_fmt_eq d s w : u_drain_fmt d s w = drain_fmt d s w.
+Proof. unfold u_drain_fmt, drain_fmt. msteps. Qed.
+
+Lemma u_into_iter_fmt_eq s w : u_into_iter_fmt s w = into_iter_fmt s w.
+Proof. unfold u_into_iter_fmt, into_iter_fmt. msteps. Qed.
+#[export] Hint Resolve u_iter_mut_fmt_eq u_drain_fmt_eq u_into_iter_fmt_eq : ueq.
+
 Lemma u_cloned_for_each_eq fuel : forall src it body s w,
   u_cloned_for_each fuel src it body s w = cloned_for_each fuel src it body s w.
 Proof.
@@ -744,6 +765,13 @@ Proof.
 Qed.
 #[export] Hint Resolve u_run_iter_script_eq : ueq.
 
+Lemma u_iter_after_eq script : forall it, u_iter_after it script = iter_after it script.
+Proof.
+  induction script as [|st rest IH]; intros; cbn [u_iter_after iter_after]; [reflexivity|].
+  destruct st; autorewrite with ueqr; apply IH.
+Qed.
+#[export] Hint Rewrite u_iter_after_eq : ueqr.
+
 Lemma u_replace_buf_eq nb s w : u_replace_buf nb s w = replace_buf nb s w.
 Proof. unfold u_replace_buf, replace_buf. msteps. Qed.
 #[export] Hint Resolve u_replace_buf_eq : ueq.
@@ -754,12 +782,13 @@ Theorem exec_unstable_eq : forall o s w,
   0 <= cap s -> exec_unstable o s w = exec o s w.
 Proof.
   intros o s w Hcap.
-  destruct o; cbn [exec_unstable exec]; try solve [ msteps ].
+  destruct o; cbn [exec_unstable exec]; try solve [ msteps ]; try solve [ usteps ].
   - (* OExtendFromSlice *)
     unfold bind. rewrite u_extend_from_slice_eq by exact Hcap. reflexivity.
   - (* OIntoIter *) msteps. rewrite u_new_buf_eq. reflexivity.
   - (* OWrite *)
     unfold bind. rewrite u_fam_write_eq by exact Hcap. reflexivity.
+  - (* OIntoIterDebug *) msteps. rewrite u_new_buf_eq. reflexivity.
 Qed.
 
 Corollary exec_unstable_eq_WF : forall o s w, WF s -> exec_unstable o s w = exec o s w.
@@ -773,8 +802,10 @@ Theorem exec_unstable_eq_any_state : forall o s w,
   calls_extend_from_slice o = false -> exec_unstable o s w = exec o s w.
 Proof.
   intros o s w H.
-  destruct o; try discriminate H; cbn [exec_unstable exec]; try solve [ msteps ].
-  msteps. rewrite u_new_buf_eq. reflexivity.
+  destruct o; try discriminate H; cbn [exec_unstable exec]; try solve [ msteps ];
+    try solve [ usteps ].
+  - msteps. rewrite u_new_buf_eq. reflexivity.
+  - msteps. rewrite u_new_buf_eq. reflexivity.
 Qed.
 
 (* histories: as long as N >= 0 in every state that is reached *)
